@@ -122,27 +122,23 @@ def mentions (k : Nat) : Op → Bool
 lie inside `p`) leaves the Var at `p` readable, holding the value `q` had, denoting the tree `q` denoted before. -/
 def assign_spec_full : Prop :=
   ∀ (n : Nat) (ops : List Op) (p q : Path) (t : Loc) (σ1 σ' : State) (src : V) (f : Nat) (tr : Tree),
+    p.root < n →
     resolveMut true (run true (initState n) ops) (.slot p.root) p.steps = (σ1, .ok t) →
     opSetV σ1 t q = .ok σ' → cget σ1 q = .ok src → content f σ1.heap src = some tr →
     readLoc σ' t = .ok src ∧ content f σ'.heap src = some tr
 
-/-- **assign_spec_partial** — for EVERY state satisfying the reference-count invariant (hence every state reached
-by a history covered by `history_safe_partial`), every valid target location `t` and every source path `q`
-(`q` may denote an element or property, at any depth, of the Var at `t`: `v = v[0]`, `v = v["a"]["b"]`), if the
-guarded assignment is executed then
-* a Var read at `t` afterwards is exactly the source value, and when `t` is a root variable it is readable;
+/-- **assign_spec, per state** — for EVERY state satisfying the invariant (hence every state reached by any history,
+`history_safe`), every valid target location `t` and every source path `q` (`q` may denote an element or property,
+at any depth, of the Var at `t`: `v = v[0]`, `v = v["a"]["b"]`), if the guarded assignment is executed then
+* the Var at `t` is readable afterwards and is exactly the source value (the target survives the release of its own
+  old content);
 * the source value denotes afterwards the same tree as before the assignment (so the target equals, by
   `eq_iff_content`, every Var that denotes that tree);
-* the invariant still holds (nothing was released twice, nothing that is still referenced was released).
-Missing for `assign_spec_full`: that a target nested inside a container is still readable after the release of
-its old content (true in acyclic heaps; needs the acyclicity invariant that is not formalised). -/
-theorem assign_spec_partial (σ σ' : State) (t : Loc) (q : Path) (inv : Inv σ []) (hl : ValidLoc σ t)
+* the invariant still holds (nothing was released twice, nothing that is still referenced was released). -/
+theorem assign_spec_state (σ σ' : State) (t : Loc) (q : Path) (inv : Inv σ []) (hl : ValidLoc σ t)
     (h : opSetV σ t q = .ok σ') :
-    ∃ src, cget σ q = .ok src ∧
-      (∀ v', readLoc σ' t = .ok v' → v' = src) ∧
-      (∀ k, t = .slot k → readLoc σ' t = .ok src) ∧
-      (∀ f tr, content f σ.heap src = some tr → readLoc σ' t = .ok src → content f σ'.heap src = some tr) ∧
-      Inv σ' [] := by
+    ∃ src, cget σ q = .ok src ∧ readLoc σ' t = .ok src ∧
+      (∀ f tr, content f σ.heap src = some tr → content f σ'.heap src = some tr) ∧ Inv σ' [] := by
   unfold opSetV at h
   rcases inv.cget q with ⟨e, h1, _⟩ | ⟨src, h1, hsrc⟩
   · rw [h1] at h; cases h
@@ -165,22 +161,39 @@ theorem assign_spec_partial (σ σ' : State) (t : Loc) (q : Path) (inv : Inv σ 
         exact reaches_false_not_reach f' src c hf' hc
       obtain ⟨σ2, ha, inv2, _⟩ := inv.assignV hl hlive hacyc
       rw [ha] at h; cases h
-      obtain ⟨s1, s2, s3⟩ := inv.assignV_spec hl hlive hreach ha
-      exact ⟨src, h1, s1, s2, s3, inv2⟩
+      obtain ⟨_, _, s3⟩ := inv.assignV_spec hl hlive hreach ha
+      have hread := inv.assignV_target hl hlive hacyc ha
+      exact ⟨src, h1, hread, fun f tr hc => s3 f tr hc hread, inv2⟩
+
+/-- **assign_spec** — the full statement, over all histories -/
+theorem assign_spec : assign_spec_full := by
+  intro n ops p q t σ1 σ' src f tr hroot hres hset hq hc
+  obtain ⟨inv, hlen, _⟩ := (Inv.init n).run ops (initState n) rfl
+  have hslots : p.root < (run true (initState n) ops).slots.length := by
+    rw [hlen]; simp [initState]; exact hroot
+  obtain ⟨σ1', r, h1, inv1, _, hr⟩ := Inv.resolveMut (T := []) p.steps _ (.slot p.root) inv hslots
+  rw [hres] at h1
+  simp only [Prod.mk.injEq] at h1
+  obtain ⟨rfl, rfl⟩ := h1
+  rcases hr with ⟨e, he, _⟩ | ⟨t', ht', hl⟩
+  · cases he
+  · cases ht'
+    obtain ⟨src', hq', hread, hcont, _⟩ := assign_spec_state σ1 σ' t q inv1 hl hset
+    rw [hq] at hq'; cases hq'
+    exact ⟨hread, hcont f tr hc⟩
 
 /-- "leaves the target equal to the assigned value": after an executed `p = q`, the Var at `p` compares equal (`==`)
 to every Var that denotes the tree `q` denoted before the assignment -/
 theorem assign_then_equal (σ σ' : State) (t : Loc) (q : Path) (inv : Inv σ []) (hl : ValidLoc σ t)
     (h : opSetV σ t q = .ok σ') (src w : V) (f : Nat) (tr : Tree)
-    (hq : cget σ q = .ok src) (hsrc : content f σ.heap src = some tr)
-    (hread : readLoc σ' t = .ok src) (hw : content f σ'.heap w = some tr) :
-    eqV f σ'.heap src w = .ok true := by
-  obtain ⟨src', h1, _, _, hcont, _⟩ := assign_spec_partial σ σ' t q inv hl h
+    (hq : cget σ q = .ok src) (hsrc : content f σ.heap src = some tr) (hw : content f σ'.heap w = some tr) :
+    readLoc σ' t = .ok src ∧ eqV f σ'.heap src w = .ok true := by
+  obtain ⟨src', h1, hread, hcont, _⟩ := assign_spec_state σ σ' t q inv hl h
   rw [hq] at h1; cases h1
-  obtain ⟨b, hb, hiff⟩ := eq_iff_content f σ'.heap src w tr tr (hcont f tr hsrc hread) hw
-  rw [hb, hiff.mpr rfl]
+  obtain ⟨b, hb, hiff⟩ := eq_iff_content f σ'.heap src w tr tr (hcont f tr hsrc) hw
+  exact ⟨hread, by rw [hb, hiff.mpr rfl]⟩
 
-/-- the hypotheses of `assign_spec_partial` are met by `v = v[0]` on `v = [[1,2],5]`: the assignment is executed and
+/-- the hypotheses of `assign_spec_state` are met by `v = v[0]` on `v = [[1,2],5]`: the assignment is executed and
 `v` then holds the handle of the former element -/
 example : ((opSetV (run true (initState 1)
       [.setLit ⟨0, [.idx 0, .idx 0]⟩ (.int 1), .setLit ⟨0, [.idx 0, .idx 1]⟩ (.int 2), .setLit ⟨0, [.idx 1]⟩ (.int 5)])
